@@ -941,18 +941,26 @@ theorem C11_surf_pyramid_safe (env : Env) (wf : (env "array").wf)
   have := C10_surf_pyramid_in_bounds n0 n1 (env "nr_octaves").ival (env "nr_intervals").ival (env "initial_step_size").ival hp.2.2.2.2
   exact ⟨hp, n0, n1, e, this.1, this.2⟩
 
-/-- **C11 (surf.descriptors / surf.dense): the guards do NOT imply the precondition of `sum_rect`.** A 40 × 40 double
-image with one interest point row of five doubles passes every extracted guard of the native `py_descriptors` (the wrapper
-guards of `dense` — finite `scale ≥ 0.001`, `spacing ≥ 1` — are value tests on floats, opaque); yet by
-`C10_surf_descriptor_guard_insufficient` the point (15, 15) with scale 1 passes the kernel's own border test and one of its
-Haar windows is out of bounds, `sum_rect` being in bounds exactly when `y0 ≤ N0 ∧ x0 ≤ N1 ∧ 1 ≤ y1 ∧ 1 ≤ x1` on a non-empty
-image (`C10_surf_sum_rect_in_bounds_iff`). A GENUINE DEFECT of the code, confirmed under AddressSanitizer
-(`surf.dense(rand(40,40), 1)`; open known finding of C10, `corpus/C10/surf_*.json`). -/
-theorem C11_surf_descriptors_guards_insufficient :
+/-- **C11+C10 (surf.descriptors / surf.dense → descriptor sampling).** If the extracted guards of the native
+`py_descriptors` pass, the integral image is a matrix `n0 × n1` of doubles (well-formed descriptor) and the points are a
+2-D double array; since the repair 6faa5ae of `sum_rect` (two-sided clamps, empty image not read) NOTHING more is needed:
+for ARBITRARY sample positions and window size — whatever the float-derived scale, rotation and border test give, also for
+the small scales `surf.dense(f, 1)` passes — every read of every `haar_x`/`haar_y` sample of the C10 model is inside the
+integral image (`C10_surf_descriptor_windows_in_bounds`). (The defect this round found on the pinned clamps is kept as
+`C10_surf_descriptor_pinned_guard_insufficient`.) -/
+theorem C11_surf_descriptors_safe (env : Env) (wf : (env "array").wf)
+    (h : npasses Generated.nativeGuards_surf_descriptors env = true) (pts : List (Int × Int)) (w : Int) :
+    (env "array").tnum = 12 ∧ (env "points_arr").ndim = 2 ∧ ∃ n0 n1 : Nat, (env "array").shape = [n0, n1] ∧
+      Mahotas.C10Surf.sAllOk (Mahotas.C10Surf.descWindowAccesses n0 n1 pts w) = true := by
+  simp [Generated.nativeGuards_surf_descriptors, npasses, NAtom.rejects, isArr] at h
+  obtain ⟨⟨ha, hp⟩, h2, h3, -, h5⟩ := h
+  simp [ha, hp, canonT] at h2 h3 h5
+  obtain ⟨n0, n1, e⟩ := shape_of_len_two (env "array").shape (by rw [← wf]; exact h2)
+  exact ⟨by split at h3 <;> (try split at h3) <;> omega, h5, n0, n1, e, C10_surf_descriptor_windows_in_bounds n0 n1 pts w⟩
+
+/-- non-vacuity: a 40 × 40 double image with one interest point row passes the guards of `py_descriptors` -/
+example :
     npasses Generated.nativeGuards_surf_descriptors (fun n =>
       if n = "array" then { kind := 1, ndim := 2, dcls := 3, shape := [40, 40], tnum := 12, flags := 7 } else
-      if n = "points_arr" then { kind := 1, ndim := 2, dcls := 3, shape := [1, 5], tnum := 12, flags := 7 } else {}) = true ∧
-    Mahotas.C10Surf.descGuard 40 40 15 15 1 = true ∧
-    Mahotas.C10Surf.sAllOk (Mahotas.C10Surf.haarAccesses 40 40 (Mahotas.C10Surf.descSample 15 15 1 (-20 / 29) (21 / 29) (-10) (-10)).1
-      (Mahotas.C10Surf.descSample 15 15 1 (-20 / 29) (21 / 29) (-10) (-10)).2 (Mahotas.C10Surf.descWindow 1)) = false :=
-  ⟨by decide, C10_surf_descriptor_guard_insufficient.1, C10_surf_descriptor_guard_insufficient.2.2.2.2⟩
+      if n = "points_arr" then { kind := 1, ndim := 2, dcls := 3, shape := [1, 5], tnum := 12, flags := 7 } else {}) = true := by
+  decide
